@@ -42,7 +42,9 @@ struct Cfg {
 }
 
 fn build(cfg: &Cfg) -> World {
-    let a = SideCfg { opts: opts(cfg.rwnd.0, 1).bind_buffer_size(1).datagram_buffer_size(2), rng: vec![] };
+    // (lean scenario: a single attempt per stream request, so that a request pending when the connection ends is on its
+    // LAST attempt: it must still report Closed, not "flow id rejected")
+    let a = SideCfg { opts: opts(cfg.rwnd.0, 1).bind_buffer_size(1).datagram_buffer_size(2).max_flow_id_retries(if cfg.variant == 2 { 1 } else { 3 }), rng: vec![] };
     let b = SideCfg { opts: opts(cfg.rwnd.1, 1).bind_buffer_size(1).datagram_buffer_size(2), rng: vec![] };
     let mut w = World::two(if cfg.cap == 0 { UNBOUNDED_CAP } else { cfg.cap }, &a, &b);
     // B: accepts forever; stream 1 is read slowly so that A's writer runs out of credit
